@@ -211,3 +211,67 @@ func Watchdog(d time.Duration, fn func()) (ok bool) {
 		return false
 	}
 }
+
+// RequirementOf returns the version string of the manifest's direct (non-management) requirement on
+// fullName with the given Maven classifier / artifact type ("" for the plain jar); n is the number of
+// such requirements (the version is only meaningful for n == 1).
+func RequirementOf(m guidedremediation.VerifManifest, fullName, classifier, artType string) (version string, n int) {
+	for _, r := range m.Requirements() {
+		if r.Name != fullName {
+			continue
+		}
+		if o, _ := r.Type.GetAttr(dep.MavenDependencyOrigin); o != "" {
+			continue
+		}
+		cl, _ := r.Type.GetAttr(dep.MavenClassifier)
+		at, _ := r.Type.GetAttr(dep.MavenArtifactType)
+		if cl == classifier && at == artType {
+			version = r.Version
+			n++
+		}
+	}
+	return version, n
+}
+
+// CountDirect is the number of direct (non-management) requirements of the manifest on fullName.
+func CountDirect(m guidedremediation.VerifManifest, fullName string) int {
+	n := 0
+	for _, r := range m.Requirements() {
+		if o, _ := r.Type.GetAttr(dep.MavenDependencyOrigin); r.Name == fullName && o == "" {
+			n++
+		}
+	}
+	return n
+}
+
+// Denoted is the concrete version a single requirement string on fullName stands for, taken on its own:
+// a plain ladder version denotes itself (Maven soft requirement / npm pin); anything else denotes the
+// highest registry version the case's client reports as matching. ok=false if nothing matches.
+func (c *Case) Denoted(fullName, req string) (string, bool) {
+	if _, ok := ParseV(req); ok {
+		return req, true
+	}
+	cl, err := c.Client()
+	if err != nil {
+		return "", false
+	}
+	vs, err := cl.MatchingVersions(context.Background(), resolve.VersionKey{
+		PackageKey:  resolve.PackageKey{System: c.System(), Name: fullName},
+		VersionType: resolve.Requirement,
+		Version:     req,
+	})
+	if err != nil || len(vs) == 0 {
+		return "", false
+	}
+	best := ""
+	for _, v := range vs {
+		if best == "" {
+			best = v.Version
+			continue
+		}
+		if x, ok := Cmp(v.Version, best); ok && x > 0 {
+			best = v.Version
+		}
+	}
+	return best, true
+}
